@@ -15,7 +15,7 @@ LEVEL = 'proof'
 SLOW = 10.0          # seconds for one decode call; generous: the check itself loads all 16 cores
 
 OBL = '''From Coq Require Import ZArith List Bool Lia.
-Require Import PyIR.Base.Result PyIR.Engine.Parse PyIR.Engine.NoCrash PyIR.Proto.Descriptor PyIR.Proto.RoundTrip
+Require Import PyIR.Base.Result PyIR.Engine.Parse PyIR.Engine.NoCrash PyIR.Engine.ParseM PyIR.Engine.ParseMProps PyIR.Proto.Descriptor PyIR.Proto.RoundTrip
                PyIR.Ctl.Instance PyIR.Ctl.NoCrash.
 Require Import Gen.Tables.
 Import ListNotations.
@@ -26,7 +26,7 @@ Open Scope Z_scope.
 def gen_obligation(e):
     p = e['p']
     name = p['name']
-    if not engine.modelled_H(p):
+    if not engine.modelled_C(p):
         return None, 'engine class %s%s not in the proved fragment' % (p['eclass'], ' with middle timings' if p['middle'] else '')
     if not all(len(b) == 2 for b in p['bursts']) or not all(len(b) == 2 for b in p['rep_bursts']):
         return None, 'symbol tables are not pair tables'
@@ -36,9 +36,9 @@ def gen_obligation(e):
         out.append('''(* %s overrides decode(): this is the engine part (CodeWrapper on the class tables); the protocol's own code on top of
    it is covered by the search oracle only *)
 Theorem C08_%s : exists t, as_pairs (d_bursts D_%s) = Some t /\\
-  forall frame, is_pyerr (parseH 20 (d_lead_in D_%s) (d_lead_out D_%s) t frame) = false.
+  forall frame, is_pyerr (parseC 20 (d_lead_in D_%s) (d_lead_out D_%s) t frame) = false.
 Proof.
-  eexists. split; [reflexivity|]. intros frame. apply parseH_no_pyerr.
+  eexists. split; [reflexivity|]. intros frame. apply parseC_no_pyerr.
 Qed.
 Print Assumptions C08_%s.
 ''' % (name, name, name, name, name, name))
@@ -127,6 +127,26 @@ def search_decoders(ctx, protos, valid, per):
                     out = (type(e).__name__, site_of(e))
                 finally:
                     vlib.drain_workers()
+            # the same input on a decoder that holds a key (it has just decoded a full frame of the protocol): the repeat-frame path
+            # of decode() is only reachable from that state
+            if out is None and own:
+                inst = p['cls']()
+                with engine.class_guard(p['cls']):
+                    try:
+                        inst.decode(list(own[0]), p['frequency'])
+                    except Exception:  # noqa
+                        pass
+                    vlib.drain_workers()
+                    try:
+                        inst.decode(list(data), p['frequency'])
+                    except IRException:
+                        pass
+                    except Exception as e:  # noqa
+                        out = (type(e).__name__, site_of(e))
+                        kind = kind + ' on a decoder holding a key'
+                    finally:
+                        vlib.drain_workers()
+                ctx.count_eval(key=(name, 'held', tuple(data[:12]), len(data)))
             dt = time.time() - t0
             if dt > SLOW:
                 hits[name] = True
@@ -135,7 +155,8 @@ def search_decoders(ctx, protos, valid, per):
                 seen.add(out)
                 hits[name] = True
                 ctx.report(name, 'decode leaks %s at %s' % out, dict(n=len(data)),
-                           dict(protocol=name, data=data, exception=out[0], site=out[1], input_kind=kind))
+                           dict(protocol=name, data=data, exception=out[0], site=out[1], input_kind=kind,
+                                held_key_frame=(own[0] if 'holding' in kind else None)))
         if not seen:
             ctx.passed(name, dict(n=0))
     ctx.extra['input_distribution'] = dist
@@ -287,8 +308,14 @@ def replay(path):
     r = json.load(open(path))['replay']
     if 'data' in r and 'protocol' in r:
         p = protoinfo.by_name()[r['protocol']]
+        inst = p['cls']()
+        if r.get('held_key_frame'):
+            try:
+                inst.decode(list(r['held_key_frame']), p['frequency'])
+            except Exception:  # noqa
+                pass
         try:
-            print(p['cls']().decode(list(r['data']), p['frequency']))
+            print(inst.decode(list(r['data']), p['frequency']))
             return 0
         except IRException as e:
             print('rejected:', type(e).__name__)
